@@ -362,7 +362,8 @@ def execute(drv, job, wd, ctx, name, retry_unusable=True, coverage=False, extra=
         if got.get(k, 0) != v:
             raise vlib.CheckError("algebra driver returned %d %s records, expected %d" % (got.get(k, 0), k, v))
     # load-sensitive part: a DKG that timed out (60 s for a run that takes milliseconds) is re-run once alone (systemic timeouts are not)
-    unusable = [i for i, r in enumerate(recs) if r["k"] == "dkg" and (r["timeout"] or r["harness"])]
+    unusable = [i for i, r in enumerate(recs) if (r["k"] == "dkg" and (r["timeout"] or r["harness"])) or
+                (r["k"] == "seq" and any(x["timeout"] or x["harness"] for x in r["runs"]))]
     if unusable and len(unusable) <= 3 and retry_unusable:
         frags = job_fragments(job)
         for i in unusable:
@@ -435,6 +436,13 @@ def inject(recs, what):
         if what == "bdeal" and r["k"] == "bdeal" and r["n"] == 32 and r["scheme"] == "ps":
             r["oks"][0] = False
             return
+        if what == "rerun" and r["k"] == "seq" and r["scheme"] == "bls":
+            r["runs"][1]["material"], r["runs"][1]["matwhy"] = False, "injected"
+            return
+        if what == "rerun-detect" and r["k"] == "seq" and r["scheme"] == "bls":
+            x = r["runs"][3]
+            x["errs"] = [False] * len(x["errs"])
+            return
     raise vlib.CheckError("VERIF_ALG_INJECT: nothing to falsify for %r" % what)
 
 
@@ -463,18 +471,22 @@ def describe(v):
     if m == "ReconstructsDealtSecret":
         return "shares dealt by the real SSS.Gen (n=%s, t=%s, %s reader) do not reconstruct the dealt secret from the points %s %s" % (
             d.get("n"), d.get("t"), d.get("mode"), d.get("pts"), d.get("panic") or "")
+    nth = (" (key generation no. %s on the same instances)" % d.get("run")) if d.get("run", 1) and d.get("run", 1) > 1 else ""
+    if m == "PublicMaterialOfThisRunOnly":
+        return "real DKG n=%s t=%s%s: all parties accept, but the public material they report is not a function of the keys announced in this key " \
+               "generation: %s" % (d.get("n"), d.get("t"), nth, d.get("err"))
     if m == "OnPolynomialKeysAccepted":
-        return "real DKG n=%s t=%s (harness party at position %s, on the polynomial) was not accepted by every party: %s" % (
-            d.get("n"), d.get("t"), d.get("pos"), d.get("err"))
+        return "real DKG n=%s t=%s%s (harness party at position %s, on the polynomial) was not accepted by every party: %s" % (
+            d.get("n"), d.get("t"), nth, d.get("pos"), d.get("err"))
     if m == "SharesAggregateToThresholdKey" and d.get("dealer"):
         return "large dealing n=%s t=%s (real SSS.Gen, real instances loaded with the shares): the partial signatures of the subsets (class, size) " \
                "%s do not aggregate to a signature under the public key of the dealt secret %s" % (d.get("n"), d.get("t"), d.get("failing"), d.get("err") or "")
     if m == "SharesAggregateToThresholdKey":
-        return "after a real DKG n=%s t=%s the partial signatures of the subsets %s do not aggregate to a signature under the reported " \
-               "threshold key %s" % (d.get("n"), d.get("t"), d.get("failing"), d.get("err") or "")
+        return "after a real DKG n=%s t=%s%s the partial signatures of the subsets %s do not aggregate to a signature under the reported " \
+               "threshold key %s" % (d.get("n"), d.get("t"), nth, d.get("failing"), d.get("err") or "")
     if m == "OffPolynomialKeyDetected":
-        return "real DKG n=%s t=%s: the party at position %s revealed a key off the common polynomial and was %s" % (
-            d.get("n"), d.get("t"), d.get("pos"), d.get("err"))
+        return "real DKG n=%s t=%s%s: the party at position %s revealed a key off the common polynomial and was %s" % (
+            d.get("n"), d.get("t"), nth, d.get("pos"), d.get("err"))
     return json.dumps(v)
 
 
@@ -562,7 +574,29 @@ def selftest(wd, recs, ctx):
         if r:
             r["errs"][0] = False
             muts.append((r, "OffPolynomialKeyDetected"))
-    if len(muts) < 26:
+    r = first(lambda r: r["k"] == "seq")
+    if r:
+        r["runs"][1]["material"], r["runs"][1]["matwhy"] = False, "corrupted"
+        muts.append((r, "PublicMaterialOfThisRunOnly"))
+    r = first(lambda r: r["k"] == "seq")
+    if r:
+        k = max(i for i, x in enumerate(r["runs"]) if not x["off"] and x["signed"])
+        r["runs"][k]["fresh"] = False
+        muts.append((r, "PublicMaterialOfThisRunOnly"))
+    r = first(lambda r: r["k"] == "seq")
+    if r:
+        k = min(i for i, x in enumerate(r["runs"]) if x["expect"] == "detect")
+        r["runs"][k]["errs"] = [False] * len(r["runs"][k]["errs"])
+        muts.append((r, "OffPolynomialKeyDetected"))
+    r = first(lambda r: r["k"] == "seq")
+    if r:
+        r["runs"][1]["oks"][-1] = False
+        muts.append((r, "SharesAggregateToThresholdKey"))
+    r = first(lambda r: r["k"] == "dkg" and r["expect"] == "accept" and r["agree"])
+    if r:
+        r["material"], r["matwhy"] = False, "corrupted"
+        muts.append((r, "PublicMaterialOfThisRunOnly"))
+    if len(muts) < 31:
         raise vlib.CheckError("self-test could not build its corrupted records (%d)" % len(muts))
     path = os.path.join(wd, "selftest.ndjson")
     with open(path, "w") as f:
@@ -583,6 +617,7 @@ def summarise(recs):
     s = dict(choose=0, lag=0, dealings=0, reconstructions=0, dkg_runs=0, dkg_with_harness_party=0, dkg_off_polynomial=0,
              dkg_detected=0, dkg_undetectable_t_eq_n=0, aggregations=0, below_threshold_canaries=0, large_dkg_runs=0,
              large_point_sets=0, large_set_moments=0, large_set_increment_steps=0, largest_point_set=0, largest_identifier=0,
+             keygen_sequences=0, keygen_sequence_runs=0, keygen_reruns_off_polynomial_detected=0, keygen_reruns_accepted_with_fresh_material=0,
              large_choose=0, large_choose_subsets_enumerated=0, large_dealings=0, large_reconstructions=0, large_aggregations=0)
     for r in recs:
         if r["k"] == "choose":
@@ -606,6 +641,11 @@ def summarise(recs):
             s["below_threshold_canaries"] += sum(1 for x in r["subs"] if len(x) < r["t"])
             if r["big"]:
                 s["large_dkg_runs"] += 1
+        elif r["k"] == "seq":
+            s["keygen_sequences"] += 1
+            s["keygen_sequence_runs"] += len(r["runs"])
+            s["keygen_reruns_off_polynomial_detected"] += sum(1 for x in r["runs"][1:] if x["expect"] == "detect" and x["errs"] and all(x["errs"]))
+            s["keygen_reruns_accepted_with_fresh_material"] += sum(1 for x in r["runs"][1:] if x["expect"] == "accept" and x["material"] and x["fresh"])
         elif r["k"] == "blag":
             s["large_point_sets"] += 1
             s["large_set_moments"] += len(r["moments"])
@@ -630,6 +670,9 @@ def slim(r):
             r[k] = r[k][:6] + ["... %d more" % (len(r[k]) - 6)]
     if "subs" in r:
         r["subs"] = [(x[:6] + ["... %d more" % (len(x) - 6)]) if isinstance(x, list) and len(x) > 8 else x for x in r["subs"]]
+    if "runs" in r:
+        r["runs"] = [dict(n=x["n"], t=x["t"], pos=x["pos"], off=x["off"], expect=x["expect"], errs=x["errs"], agree=x["agree"], material=x["material"],
+                          fresh=x["fresh"], reused=x["reused"], err=x["errtxt"][:80]) for x in r["runs"]]
     if "chains" in r:
         r["chains"] = [dict(c, steps=c["steps"][:4] + ["... %d more" % max(0, len(c["steps"]) - 4)]) for c in r["chains"]]
     return r
@@ -644,9 +687,22 @@ def run(pid):
 
     mc, vec, ctx, sample = tlc_laws(wd, p, rng)
     log("laws: %r; vectors: %s" % (mc, ", ".join("%d %s" % (len(v), k) for k, v in sorted(vec.items()))))
-    job = build_job(p, vec, rng)
     drv = vlib.build_harness()
-    recs, tv, viols, drifts = execute(drv, job, wd, ctx, "main", coverage=True)
+    # does the tree under test support a second key generation on the same instances?  Demanded of bls.TBLS; of ps.TPS only if so
+    probes, schemes = [], ["bls"]
+    for scheme in ("bls", "ps"):
+        pr, _ = run_driver(drv, probe_job(scheme), wd, "probe_" + scheme)
+        probes.append(pr[0])
+        if scheme == "ps" and rekeying_supported(pr[0]):
+            schemes.append("ps")
+        elif not rekeying_supported(pr[0]):
+            x = pr[0]["runs"][-1]
+            log("probe: second key generation on the same %s instances: errors %s panics %s timeout %s: %s / %s" % (
+                scheme, x["errs"], x["panics"], x["timeout"], x["errtxt"], x["panictxt"]))
+    ctx["big"]["seq_schemes"] = schemes
+    log("sequences of key generations on the same instances are demanded of: %s" % ", ".join(schemes))
+    job = build_job(p, vec, rng, schemes)
+    recs, tv, viols, drifts = execute(drv, job, wd, ctx, "main", coverage=True, extra=probes)
     cover = [o for (t, o) in tv.prints if t == "COVER"]
     if len(cover) != 1:
         raise vlib.CheckError("trace validation did not report the completeness of the large cases")
@@ -656,7 +712,7 @@ def run(pid):
     byid = {r["id"]: (i, r) for i, r in enumerate(recs)}
     for v in viols:
         i, r = byid[v["id"]]
-        frag = dict(frags[i])
+        frag = dict(frags[i]) if i < len(frags) else dict()
         verdict.violation(v["sig"], "%s: %s" % (v["mon"], describe(v)),
                           dict(property=pid, kind="algebra", monitor=v["mon"], signature=v["sig"], detail=v.get("detail"),
                                job=dict(frag, seed=job["seed"], workers=1, timeout_ms=job["timeout_ms"]), modelp=ctx["modelp"], record=slim(r)))
@@ -682,7 +738,8 @@ def run(pid):
                  lambda r: r["k"] == "blag" and r["size"] == 64 and r["cls"] == "sparse",
                  lambda r: r["k"] == "bchoose" and r["n"] == 24,
                  lambda r: r["k"] == "bdeal" and r["n"] == 32 and r["scheme"] == "ps",
-                 lambda r: r["k"] == "dkg" and r["big"] and r["off"] and r["expect"] == "detect"):
+                 lambda r: r["k"] == "dkg" and r["big"] and r["off"] and r["expect"] == "detect",
+                 lambda r: r["k"] == "seq" and r["universe"][0] != 1):
         for r in recs:
             if pred(r):
                 samples.append(slim(r))
@@ -703,6 +760,7 @@ def run(pid):
                                                                               "sparse 1..46336", "seeded random (sparse and dense)"],
                          seeded_random_sets=len(ctx["big"]["randsets"]), dealings_n_t=ctx["big"]["nt"], dkg_n_t=ctx["big"]["dkg"],
                          choose_n_k=len(ctx["big"]["choose"]), cells_executed=cover[0],
+                         keygen_sequence_plans=ctx["big"]["seq"], keygen_sequences_demanded_of=schemes,
                          laws="moment law sum_i lambda_i*i^k=[k=0] for every 0<=k<|S|; reconstruction of a polynomial of degree <|S|; order "
                               "independence; increment law lambda_i(S+m)=lambda_i(S)*m/(m-i) (recomputed by TLC as reduced rationals)"),
         configs=dict(primes=PRIMES, MaxN=p["MaxN"], VecN=p["VecN"], FullMax=p["FullMax"], DkgN=p["DkgN"], RecN=p["RecN"], sample_polynomials=len(sample), model_field=MODELQ,
@@ -725,7 +783,10 @@ def run(pid):
         "not demanded)",
         "DKG runs use an in-memory router with synchronous delivery (as the repository's own tests); schedules, faults and "
         "Byzantine strategies other than one off-polynomial reveal belong to C01/C05/C11",
-        "PS prover evaluation points are the party identifiers, so PS runs use identifiers 1..n",
+        "sequences of key generations on the same instances (Init + KeyGen again; plan Algebra!RunPlan: honest, honest, a key off the "
+        "polynomial at every position, honest, another committee size, harness party on the polynomial, t = n, honest) are demanded of "
+        "bls.TBLS; of ps.TPS only when a probe shows that the tree under test can run a second key generation on a TPS instance at all "
+        "(otherwise reported as DRIFT)",
         "laws on point sets that exceed the model field (identifiers up to 65535) are evaluated modulo the group order by the harness "
         "(math/big) and reported as booleans with their inputs; TLC recomputes the increment-law rationals exactly and checks completeness",
         "large DKGs are limited to (n,t) with few t-subsets (the code's cross-check enumerates C(n,t) subsets); larger (n,t) are covered "
